@@ -200,7 +200,16 @@ def explained_by_model(j):
     if out in ("T", "F", "M"):
         return eng == out
     if out in ("t", "f"):
-        return (eng == "T") == (out == "t")
+        if (eng == "T") != (out == "t"):
+            return False
+        if j.get("rule") == "den":
+            # the observation it disagrees with must be explained as well: the model of the NOT
+            # optimised rule predicts the verdict the denotation was bound to
+            eng0, den0 = info.get("eng0"), info.get("den0")
+            if eng0 in (None, "-", "U") or den0 in (None, "-"):
+                return False
+            return (eng0 == "T") == (den0 == "t")
+        return True
     return False
 
 
